@@ -78,6 +78,10 @@ func (grp *Group) mount(prefix string, subApp *App) Router {
 	if groupPath == "" {
 		groupPath = "/"
 	}
+	// the sub-app is recorded under the path its routes are registered under: with a leading slash
+	if groupPath[0] != '/' {
+		groupPath = "/" + groupPath
+	}
 
 	// Support for configs of mounted-apps and sub-mounted-apps
 	for mountedPrefixes, subApp := range subApp.mountFields.appList {
